@@ -263,14 +263,16 @@ def _write(path, evs):
             f.write(json.dumps(r) + "\n")
 
 
-def selftest(pid, wd, tpath, skip_runs=()):
-    """Corrupt accepted runs in ways that break each obligation; every corruption must be rejected."""
+def selftest(pid, wd, tpaths, skip_runs=()):
+    """Corrupt accepted runs in ways that break each obligation; every corruption must be rejected.
+    tpaths: [(batch name, trace file)]; skip_runs: {batch name: runs that were not accepted}."""
     runs = {}
-    with open(tpath) as f:
-        for ln in f:
-            r = json.loads(ln)
-            if r["run"] not in skip_runs:
-                runs.setdefault(r["run"], []).append(r)
+    for bname, tpath in tpaths:
+        with open(tpath) as f:
+            for ln in f:
+                r = json.loads(ln)
+                if r["run"] not in skip_runs.get(bname, ()):
+                    runs.setdefault((bname, r["run"]), []).append(r)
     muts = []
 
     def first_run(pred):
@@ -386,6 +388,39 @@ def selftest(pid, wd, tpath, skip_runs=()):
             m = copy.deepcopy(evs); m[k]["items"].append(dict(m[k]["items"][0]) if m[k]["items"][0]["k"] != "maybe_preimage" else dict([x for x in m[k]["items"] if x["k"] == "awaiting"][0]))
             muts.append(("balance-double-counted", m))
     if pid == "C06":
+        # the justice claim of the cheater's balance is not re-issued while its CSV delay runs out
+        def reissues_near_expiry(evs):
+            com = next((e for e in evs if e["ev"] == "commit"), None)
+            op = next((e for e in evs if e["ev"] == "open"), None)
+            if not com or not op or not com["revoked"] or any(e["ev"] == "ldk_log" for e in evs):
+                return None
+            T = com["h"] + op["delays"][com["owner"]]
+            tl = [[com["tx"], r["v"]] for r in com["outs"] if r["k"] == "to_local"]
+            c = confirmed(evs)
+            idx = [i for i, e in enumerate(evs) if e["ev"] == "bcast" and not e["dup"] and e["by"] < 2 and e["tx"] not in c
+                   and any(x in tl for x in e["ins"]) and T - 15 <= e["h"] < T]
+            return idx if len(idx) >= 3 else None
+        evs, k = first_run(reissues_near_expiry)
+        if evs:
+            m = [e for i, e in enumerate(evs) if i not in k]; muts.append(("justice-reissue-skipped", m))
+        # asked to rebroadcast after the fee estimate has risen, the node re-issues a claim at the old feerate
+        def raised_on_rebroadcast(evs):
+            paid, rbn = {}, None
+            for i, e in enumerate(evs):
+                if e["ev"] == "rebroadcast":
+                    rbn = e["node"]
+                elif e["ev"] in ("state", "block", "idle", "jump"):
+                    rbn = None
+                elif e["ev"] == "bcast" and not e["dup"] and e["by"] < 2:
+                    key = (e["by"], json.dumps(sorted(e["ins"])))
+                    if rbn == e["by"] and not any(e["wal"]) and key in paid and e["feerate"] >= 2 * paid[key] and e["inval"] >= 4 * ECON:
+                        return (i, paid[key])
+                    paid[key] = max(paid.get(key, 0), e["feerate"])
+            return None
+        evs, k = first_run(raised_on_rebroadcast)
+        if evs:
+            m = copy.deepcopy(evs); m[k[0]]["feerate"] = k[1] + 1; m[k[0]]["pfeerate"] = k[1] + 1
+            muts.append(("rebroadcast-keeps-stale-feerate", m))
         # the cheater's confirmed second-stage output is never claimed
         def second_stage(evs):
             c = confirmed(evs)
@@ -415,7 +450,7 @@ def selftest(pid, wd, tpath, skip_runs=()):
             rejected += 1
         else:
             vlib.log("[selftest] corruption %s was NOT rejected" % name)
-    need = 8 if pid == "C07" else 5
+    need = 8 if pid == "C07" else 7
     if len(muts) < need or rejected != len(muts):
         raise vlib.ToolError("binding self-test: %d of %d corrupted traces rejected (%s)" % (rejected, len(muts), names))
     return {"mutations": len(muts), "rejected": rejected, "kinds": names}
@@ -427,19 +462,26 @@ def stats_of(tpath):
           "sweeps": 0, "reloads": 0, "htlc_outputs": 0, "revoked_runs": 0, "honest_runs": 0, "types": {}, "kinds": {},
           "styles": set(), "blocks": 0, "stale_broadcasts": 0, "bump_requests": 0, "rebump_requests": 0,
           "rebumps_after_estimate_fell_5x": {"close": 0, "htlc": 0}, "runs_with_rebump_after_fall": 0,
-          "tip_reorgs": 0, "rebroadcast_requests": 0, "rebroadcast_requests_answered": 0}
+          "tip_reorgs": 0, "rebroadcast_requests": 0, "rebroadcast_requests_answered": 0,
+          "justice_reissues_in_last_15_blocks": 0, "claims_raised_on_rebroadcast": 0}
     cur = None
     agent, conf = set(), set()
     asked, fell, rbn = {}, False, None
+    paid, expiry, delays, rbw = {}, None, [0, 0], None
     with open(tpath) as f:
         for ln in f:
             e = json.loads(ln)
+            if e["ev"] == "rebroadcast":
+                rbw = e["node"]
+            elif e["ev"] in ("state", "block", "idle", "jump", "open"):
+                rbw = None
             if e["ev"] == "open":
                 st["runs"] += 1
                 if agent & conf:
                     st["runs_with_second_stage"] += 1
                 agent, conf = set(), set()
                 asked, fell = {}, False
+                paid, expiry, delays = {}, None, e["delays"]
                 st["types"][e["chan_type"]] = st["types"].get(e["chan_type"], 0) + 1
                 st["kinds"][e["kind"]] = st["kinds"].get(e["kind"], 0) + 1
                 for s in e["styles"]:
@@ -447,11 +489,19 @@ def stats_of(tpath):
             elif e["ev"] == "commit":
                 st["htlc_outputs"] += sum(1 for r in e["outs"] if r["k"] in ("offered", "received"))
                 st["revoked_runs" if e["revoked"] else "honest_runs"] += 1
+                if e["revoked"]:
+                    expiry = (e["h"] + delays[e["owner"]], [[e["tx"], r["v"]] for r in e["outs"] if r["k"] == "to_local"])
             elif e["ev"] == "bcast" and not e["dup"]:
                 if e["by"] == 2 and e["kind"] != "RevokedCommitment":
                     agent.add(e["tx"])
                 if e["by"] < 2 and e["kind"] == "Claim":
                     st["claims"] += 1
+                    if expiry and expiry[0] - 15 <= e["h"] <= expiry[0] and any(x in expiry[1] for x in e["ins"]):
+                        st["justice_reissues_in_last_15_blocks"] += 1
+                    key = (e["by"], json.dumps(sorted(e["ins"])))
+                    if rbw == e["by"] and not any(e["wal"]) and key in paid and e["feerate"] > paid[key] + 2 + paid[key] // 50:
+                        st["claims_raised_on_rebroadcast"] += 1
+                    paid[key] = max(paid.get(key, 0), e["feerate"])
                 if e["by"] < 2 and e.get("stale"):
                     st["stale_broadcasts"] += 1
             elif e["ev"] == "rewind":
@@ -553,6 +603,9 @@ def run_check(pid, tier, seed, assumptions):
     chunk = 1000 if thorough else nrand
     batches = [("tlc" if k == 0 else "tlc%d" % (k + 1), ["--scripts", sp]) for k, sp in enumerate(spaths)]
     batches += [("random" if k == 0 else "random%d" % (k + 1), ["--random", chunk, "--profile", prof]) for k in range(nrand // chunk)]
+    if pid == "C06":
+        # justice claims starved until the cheater's CSV delay has almost run out
+        batches += [("race" if k == 0 else "race%d" % (k + 1), ["--random", 100 if thorough else 30, "--profile", "c06t"]) for k in range(3 if thorough else 1)]
     if pid == "C07":
         # late preimages followed by a reorganisation of the tip and rebroadcast requests
         batches += [("reorg" if k == 0 else "reorg%d" % (k + 1), ["--random", 100 if thorough else 40, "--profile", "c07r"]) for k in range(3 if thorough else 1)]
@@ -600,32 +653,41 @@ def run_check(pid, tier, seed, assumptions):
             raise vlib.ToolError("batch %s: %d runs were rejected, all of them known findings; the runs after the last one "
                                  "were not validated" % (bname, len(fails)))
 
-    # ---- vacuity of the drivers
+    # ---- vacuity of the drivers (the counters measure reactions of the implementation too: with a violation
+    #      already reported a thin counter is a consequence, not a tool error)
+    def vacuous(msg):
+        if nviol == 0:
+            raise vlib.ToolError(msg)
+        vlib.log("[note] " + msg)
+
     allst = {k: sum(stats[b][k] for b in stats) for k in ("runs", "second_stage_confirmed", "runs_with_second_stage", "claims",
                                                          "spendable", "sweeps", "reloads", "htlc_outputs", "revoked_runs", "honest_runs", "blocks", "stale_broadcasts")}
     if pid == "C06":
         if allst["revoked_runs"] < 0.9 * allst["runs"] or allst["runs_with_second_stage"] * 6 < allst["runs"]:
-            raise vlib.ToolError("vacuity: drivers do not exercise revoked closes with second-stage transactions: %s" % allst)
+            vacuous("vacuity: drivers do not exercise revoked closes with second-stage transactions: %s" % allst)
+        for k in ("justice_reissues_in_last_15_blocks", "claims_raised_on_rebroadcast"):
+            allst[k] = sum(stats[b][k] for b in stats)
+        if allst["justice_reissues_in_last_15_blocks"] < 60 or allst["claims_raised_on_rebroadcast"] < 5:
+            vacuous("vacuity: too few justice claims re-issued near the CSV expiry / raised on a rebroadcast request: %s" % allst)
     else:
         if allst["honest_runs"] < 0.9 * allst["runs"] or allst["claims"] < allst["runs"] // 2:
-            raise vlib.ToolError("vacuity: drivers do not exercise honest closes with HTLC claims: %s" % allst)
+            vacuous("vacuity: drivers do not exercise honest closes with HTLC claims: %s" % allst)
         # fee-estimator trajectories: externally funded claims re-requested after the estimate collapsed
         fall = {k: sum(stats[b]["rebumps_after_estimate_fell_5x"][k] for b in stats) for k in ("close", "htlc")}
         allst["rebumps_after_estimate_fell_5x"] = fall
         allst["rebump_requests"] = sum(stats[b]["rebump_requests"] for b in stats)
         if fall["close"] < 20 or fall["htlc"] < 5:
-            raise vlib.ToolError("vacuity: too few anchor-channel claims re-bumped after a sharp fall of the fee estimate: %s" % allst)
+            vacuous("vacuity: too few anchor-channel claims re-bumped after a sharp fall of the fee estimate: %s" % allst)
         for k in ("tip_reorgs", "rebroadcast_requests", "rebroadcast_requests_answered"):
             allst[k] = sum(stats[b][k] for b in stats)
         if allst["tip_reorgs"] < 10 or allst["rebroadcast_requests_answered"] < 20:
-            raise vlib.ToolError("vacuity: too few tip reorganisations / answered rebroadcast requests: %s" % allst)
+            vacuous("vacuity: too few tip reorganisations / answered rebroadcast requests: %s" % allst)
     if allst["spendable"] < allst["runs"] or allst["sweeps"] < allst["runs"] or allst["reloads"] == 0:
-        raise vlib.ToolError("vacuity: too few SpendableOutputs / sweeps / reloads: %s" % allst)
+        vacuous("vacuity: too few SpendableOutputs / sweeps / reloads: %s" % allst)
 
     st = None
     if nviol == 0:
-        src = os.path.join(wd, "trace-random.ndjson")
-        st = selftest(pid, wd, src, bad_runs.get("random", ()))
+        st = selftest(pid, wd, [(b, os.path.join(wd, "trace-%s.ndjson" % b)) for b in ("random", "race") if b in stats], bad_runs)
         vlib.log("[selftest] %s" % st)
 
     samples = conv[:2]
